@@ -66,12 +66,12 @@ impl RegExpBuilder {
     /// - the file cannot be found
     /// - the file's encoding is not valid UTF-8 data
     /// - the file cannot be opened because of conflicting permissions
+    /// - the file does not contain any test cases
     pub fn from_file<T: Into<PathBuf>>(file_path: T) -> Self {
         match std::fs::read_to_string(file_path.into()) {
-            Ok(file_content) => Self {
-                test_cases: file_content.lines().map(|it| it.to_string()).collect_vec(),
-                config: RegExpConfig::new(),
-            },
+            Ok(file_content) => {
+                Self::from(&file_content.lines().map(|it| it.to_string()).collect_vec())
+            }
             Err(error) => match error.kind() {
                 ErrorKind::NotFound => panic!("The specified file could not be found"),
                 ErrorKind::InvalidData => {
